@@ -7,15 +7,19 @@ SPEC = {
     "harness_args": {"quick": ["-n", 1200, "-len", 14], "thorough": ["-n", 9000, "-len", 18]},
     "timeout": {"quick": 600, "thorough": 2400},
     "level": "proof",
-    "tie": "T3: after every batch of random histories on a real file-backed shard the index/points/internal buckets are dumped through (*Shard).VerifDB() and the Lean executable predicate wfB (the very definition WF of C10_step / C10_history) is evaluated on the dump by the driver; batches that reach the index as one change (single insert worker, deterministic) are replayed by the Lean model `apply` of insertUpdateDelete on the previous dump with the real distance tables (DistanceFromFloat / DistanceFromPoint of a vector store opened on the persisted bucket, Alpha*d as float32) and must reproduce the new dump's edge lists, vectors and maxNodeId exactly (the Go-map order of the rescue step is an oracle: the driver accepts any order of the rescued nodes that reproduces the dump)",
+    "tie": "T3: after every batch of random histories on a real file-backed shard the index/points/internal buckets are dumped through (*Shard).VerifDB() and the Lean executable predicate wfB (the very definition WF of C10_step / C10_history) is evaluated on the dump by the driver; batches that reach the index as one change (single insert worker, deterministic) are replayed by the Lean model `apply` of insertUpdateDelete on the previous dump with the real distance tables (DistanceFromFloat / DistanceFromPoint of a vector store opened on the persisted bucket, Alpha*d as float32) and must reproduce the new dump's edge lists, vectors and maxNodeId exactly (the Go-map order of the rescue step is an oracle: the driver accepts any order of the rescued nodes that reproduces the dump); the index schema keys are flat (v, g) in 45 % and NESTED paths (n.v, n.m.v, a.b.c.v; filter property flat / sibling of the leaf / under another parent) in 55 % of the configurations, documents and updates are trees (updates replace or delete the top-level object above the leaf, carry a sibling only, an empty object, a nil leaf, an unrelated key); for every batch element whose point is named once a `doc` line carries the stored document before, the incoming document and whether the index held a vector for the node: the Lean `pstep` (top-level merge + dec.Query(schema path) on both documents + getOperation/preProcessVamana) must reproduce the document stored afterwards, whether the index holds a vector for the node now and (plain store) which one",
     "required_theorems": [
         "Sema.C10.C10_wf_meaning", "Sema.C10.C10_init", "Sema.C10.C10_step", "Sema.C10.C10_history_from",
         "Sema.C10.C10_history", "Sema.C10.C10_reserved_ids_rejected", "Sema.C10.C10_defect13_witness",
+        "Sema.C10.C10_stream_complete", "Sema.C10.C10_stream_live", "Sema.C10.C10_stream_vectors",
+        "Sema.C10.C10_shard_step", "Sema.C10.C10_shard_history_from", "Sema.C10.C10_shard_history",
+        "Sema.C10.C10_withheld_change_witness",
     ],
     "trusted_base": [
         "SemaModel/C10/Model.lean + SemaModel/C03/Model.lean: hand-written model of insertUpdateDelete / insertSinglePoint / robustPrune / removeInboundEdges / EdgeScan / pruneDeleteNeighbour / greedySearch / DistSet; tied to the code by the correspondence above, not by translation",
         "insert workers are modelled sequentially (one of the real schedules); other interleavings are covered by evaluating WF on dumps after real multi-point batches only",
         "a rejected batch leaves the persisted state unchanged (bbolt rollback + scrapped shared cache: C07/C11)",
+        "SemaModel/C10/Model.lean, section 'the point store and the index change stream' (Doc / query / mergeDoc / changeOf / pstep / pbatch): hand-written model of the transform functions of InsertPoints / UpdatePoints / DeletePoints and of getOperation / preProcessVamana, documents flattened to leaf paths; tied by the `doc` lines above; msgpack's Decoder.Query is modelled (value at a dotted path, nil = absent, error on a scalar in the way), not translated",
         "ItemCache / bbolt / msgpack: the flushed bucket content equals the in-memory stores after a successful batch (C08); documents decode with msgpack (the harness decides 'carries the field' by decoding n<id>d)",
         "node ids in the change stream are those of the point store: unique among live points, an inserted id is not live (C01's invariant; observed on every dump by the harness: uuid<->node id maps are mutually inverse, free list disjoint from live ids, without duplicates and below nextFreeNodeId, pointCount exact)",
         "an index bucket that was never written is identified with the fresh index (entry node only): NewIndexVamana materialises the entry node with a random vector on first use",
